@@ -133,17 +133,37 @@ class _Canon(ast.NodeTransformer):
                 return ast.copy_location(new, node)
         return node
 
+    _EXACT_NEG = {ast.Eq: ast.NotEq, ast.NotEq: ast.Eq, ast.Is: ast.IsNot, ast.IsNot: ast.Is, ast.In: ast.NotIn, ast.NotIn: ast.In}
+
+    def visit_UnaryOp(self, node):
+        self.generic_visit(node)
+        # `not (a == b)` -> `a != b` (and is / in): exact negations only - `not (a < b)` is NOT `a >= b` for NaN
+        if isinstance(node.op, ast.Not) and isinstance(node.operand, ast.Compare) and len(node.operand.ops) == 1 \
+                and type(node.operand.ops[0]) in self._EXACT_NEG:
+            c = node.operand
+            new = ast.Compare(left=c.left, ops=[self._EXACT_NEG[type(c.ops[0])]()], comparators=c.comparators)
+            return self.visit_Compare(ast.copy_location(new, node)) if True else new
+        return node
+
+    _NEGATIVE = {ast.NotEq: ast.Eq, ast.IsNot: ast.Is, ast.NotIn: ast.In}
+
+    def _positive_test(self, node):
+        """two-armed branch: strip a leading `not` / turn `!=`, `is not`, `not in` into the positive form and swap the arms"""
+        t = node.test
+        if isinstance(t, ast.UnaryOp) and isinstance(t.op, ast.Not):
+            node.test, node.body, node.orelse = t.operand, node.orelse, node.body
+        elif isinstance(t, ast.Compare) and len(t.ops) == 1 and type(t.ops[0]) in self._NEGATIVE:
+            pos = ast.copy_location(ast.Compare(left=t.left, ops=[self._NEGATIVE[type(t.ops[0])]()], comparators=t.comparators), t)
+            node.test, node.body, node.orelse = pos, node.orelse, node.body
+        return node
+
     def visit_If(self, node):
         self.generic_visit(node)
-        if node.orelse and isinstance(node.test, ast.UnaryOp) and isinstance(node.test.op, ast.Not):
-            node.test, node.body, node.orelse = node.test.operand, node.orelse, node.body
-        return node
+        return self._positive_test(node) if node.orelse else node
 
     def visit_IfExp(self, node):
         self.generic_visit(node)
-        if isinstance(node.test, ast.UnaryOp) and isinstance(node.test.op, ast.Not):
-            node.test, node.body, node.orelse = node.test.operand, node.orelse, node.body
-        return node
+        return self._positive_test(node)
 
 
 class _CanonStmts(ast.NodeTransformer):
